@@ -95,6 +95,11 @@ Definition known_dns_name (passive : bool) (connect_name addr : N) : option N :=
   else if N.eqb connect_name empty_id then None
   else Some connect_name.
 
+(* RFC 9174 section 4.2: the contact header carries one flags octet; CAN_TLS is the bit 0x01 and
+   "the remaining bits are reserved" -- a header offers TLS iff bit 0 of its flags octet is set,
+   whatever the reserved bits are. *)
+Definition offers_tls (flags : N) : bool := N.testbit flags 0.
+
 (* Use of TLS.  "TLS is attempted exactly when both contact headers offer it, a
    node that requires TLS never proceeds in the clear, and one that forbids it
    never proceeds secured": an endpoint that goes on to session negotiation
